@@ -40,9 +40,13 @@ def ranks_from(edges):
     return {n: depth(n) for n in nodes}
 
 
+FIXED = {'gate_call_expr': "(if crate::parser::cur(old(p).st()) == SyntaxKind::IDENT { 0nat } else { 1000nat })"}
+
+
 def write(ranks):
+    ranks = dict(ranks); ranks.update(FIXED)
     with open(RF, 'w') as f:
-        f.write(HEAD + 'RANK = {\n' + ''.join('    %r: %d,\n' % (k, v) for k, v in sorted(ranks.items()) if v) + '}\n')
+        f.write(HEAD + 'RANK = {\n' + ''.join(('    %r: %r,\n' % (k, v)) for k, v in sorted(ranks.items()) if v) + '}\n')
 
 
 for rnd in range(30):
@@ -66,6 +70,8 @@ for rnd in range(30):
         callee = m.group(1) if m else None
         if callee is None:
             other.append((e['function'], 'termination?', e['site_text'][:80])); continue
+        if caller in FIXED or callee in FIXED:
+            other.append((e['function'], 'termination(fixed-rank)', e['site_text'][:80])); continue
         new.add((caller, callee))
     fresh = new - edges
     print('round %d: %d termination failures, %d new constraints, %d other failures' % (rnd, len(new), len(fresh), len(other)))
